@@ -4,7 +4,7 @@
    Model: Sim/Model.v (transcription of hydro_lang/src/sim/runtime.rs hooks and
    compiled.rs run_hooks).  All statements quantify over ALL queues and ALL decision scripts. *)
 From Coq Require Import List Arith Bool NArith Permutation Sorted.
-From HV Require Import Sim.Model Sim.PHooks Sim.PTick Sim.Run Sim.PNoPanic Sim.ModelTop Sim.PTop.
+From HV Require Import Sim.Model Sim.PHooks Sim.PTick Sim.Run Sim.PNoPanic Sim.ModelTop Sim.PTop Sim.PTop2.
 Import ListNotations.
 Close Scope N_scope.
 
@@ -160,6 +160,39 @@ Theorem C36_top_keyed_sound : forall (A K : Type) front force (m : list (K * lis
   \/ (nt = true /\ TakesOne front m rel m').
 Proof. intros A K. exact (@top_keyed_sound A K). Qed.
 Print Assumptions C36_top_keyed_sound.
+
+(* ---- the last four hook kinds ---- *)
+
+(* TopLevelKeyedMergeOrderedHook: nothing, or the front item of exactly one key of one of the two
+   inputs; everything else untouched, both maps keep their shape *)
+Theorem C36_top_kmerge_sound : forall (A K : Type) force (m1 m2 : list (K * list A)) ds rel r1 r2 rest nt,
+  decide_top_kmerge force m1 m2 ds = Ok (rel, r1, r2, rest, nt) ->
+  (rel = [] /\ r1 = m1 /\ r2 = m2 /\ nt = false /\ (force = true -> count_ne (m1 ++ m2) = 0))
+  \/ (nt = true /\ TakesOne true (m1 ++ m2) rel (r1 ++ r2) /\ length r1 = length m1 /\ length r2 = length m2).
+Proof. intros A K. exact (@top_kmerge_sound A K). Qed.
+Print Assumptions C36_top_kmerge_sound.
+
+(* inline KeyedStreamOrderHook: per key a permutation of that key's items *)
+Theorem C36_inline_kshuffle_sound : forall (A K : Type) (gs : list (K * list A)) ds gs' rest,
+  kshuffle gs ds = Ok (gs', rest) ->
+  Forall2 (fun g g' => fst g = fst g' /\ Permutation (snd g') (snd g)) gs gs'.
+Proof. intros A K. exact (@kshuffle_sound A K). Qed.
+Print Assumptions C36_inline_kshuffle_sound.
+
+(* inline PartiallyOrderedStreamHook: the output is built by repeatedly taking the FRONT item of
+   some key (per-key order preserved) until every key is exhausted (nothing lost) *)
+Theorem C36_inline_partial_sound : forall (A K : Type) (gs : list (K * list A)) ds out rest,
+  decide_partial gs ds = Ok (out, rest) ->
+  exists gs', POSteps gs out gs' /\ count_ne gs' = 0.
+Proof. intros A K gs ds out rest H. eapply partial_sound; eauto. Qed.
+Print Assumptions C36_inline_partial_sound.
+
+(* inline KeyedMergeOrderedHook: keys in first-seen order, per key an order-preserving
+   interleaving of its items in the two inputs *)
+Theorem C36_inline_kmerge_sound : forall (A K : Type) (gs : list (K * (list A * list A))) ds out rest,
+  kmerge gs ds = Ok (out, rest) -> KMerged gs out.
+Proof. intros A K. exact (@kmerge_sound A K). Qed.
+Print Assumptions C36_inline_kmerge_sound.
 
 (* non-vacuity: the hypotheses are satisfiable by non-trivial values *)
 Example C36_ex_noorder :
